@@ -26,9 +26,17 @@ B64s == <<98, 54, 52>>                     \* "b64"
 B32 == <<98, 97, 115, 101, 51, 50>>        \* "base32"
 B32s == <<98, 51, 50>>                     \* "b32"
 
+\* Two readings of "a quote closes the string" are in circulation: the assembler's own (the quote is not directly
+\* preceded by a backslash) and the escape-aware one (it is preceded by an even number of backslashes).  They agree on
+\* every literal in which each quote and each backslash of the text is escaped; a text on which they differ is ambiguous.
+RECURSIVE BslRun(_, _)
+BslRun(line, i) == IF i >= 1 /\ line[i] = BSL THEN 1 + BslRun(line, i - 1) ELSE 0
+StaysOpen(line, i, strict) == IF strict THEN BslRun(line, i - 1) % 2 = 1 ELSE line[i - 1] = BSL
+
 \* scanner state: i position, start of the current token (0 = none), inS, inB, toks
-RECURSIVE Scan(_, _, _, _, _, _)
-Scan(line, i, start, inS, inB, toks) ==
+RECURSIVE ScanG(_, _, _, _, _, _, _)
+Scan(line, i, start, inS, inB, toks) == ScanG(line, i, start, inS, inB, toks, FALSE)
+ScanG(line, i, start, inS, inB, toks, strict) ==
   LET n == Len(line)
       flush(j) == IF start > 0 /\ j > start THEN Append(toks, SubSeq(line, start, j - 1)) ELSE toks
   IN
@@ -38,25 +46,26 @@ Scan(line, i, start, inS, inB, toks) ==
   THEN LET st == IF start = 0 THEN i ELSE start IN
        IF c = QUOTE
        THEN IF ~inS
-            THEN Scan(line, i + 1, st, (i = 1 \/ IsSpace(line[i - 1])), inB, toks)
-            ELSE Scan(line, i + 1, st, (line[i - 1] = BSL), inB, toks)
+            THEN ScanG(line, i + 1, st, (i = 1 \/ IsSpace(line[i - 1])), inB, toks, strict)
+            ELSE ScanG(line, i + 1, st, StaysOpen(line, i, strict), inB, toks, strict)
        ELSE IF c = SLASH /\ i < n /\ line[i + 1] = SLASH /\ ~inB /\ ~inS
             THEN (IF st # i THEN Append(toks, SubSeq(line, st, i - 1)) ELSE toks)        \* comment: rest of line ignored
        ELSE IF c = LPAR /\ ~inS /\ SubSeq(line, st, i - 1) \in {B64, B64s}
-            THEN Scan(line, i + 1, st, inS, TRUE, toks)
+            THEN ScanG(line, i + 1, st, inS, TRUE, toks, strict)
        ELSE IF c = RPAR /\ inB /\ ~inS
-            THEN Scan(line, i + 1, st, inS, FALSE, toks)
+            THEN ScanG(line, i + 1, st, inS, FALSE, toks, strict)
        ELSE IF c = SEMI /\ ~inS /\ ~inB
-            THEN Scan(line, i + 1, 0, FALSE, FALSE,
-                      Append(IF st # i THEN Append(toks, SubSeq(line, st, i - 1)) ELSE toks, <<SEMI>>))
-       ELSE Scan(line, i + 1, st, inS, inB, toks)
+            THEN ScanG(line, i + 1, 0, FALSE, FALSE,
+                      Append(IF st # i THEN Append(toks, SubSeq(line, st, i - 1)) ELSE toks, <<SEMI>>), strict)
+       ELSE ScanG(line, i + 1, st, inS, inB, toks, strict)
   ELSE \* a blank ends the token unless inside a string
-       IF inS THEN Scan(line, i + 1, start, inS, inB, toks)
+       IF inS THEN ScanG(line, i + 1, start, inS, inB, toks, strict)
        ELSE LET tok == IF start > 0 THEN SubSeq(line, start, i - 1) ELSE <<>>
                 inB2 == IF inB THEN FALSE ELSE tok \in {B64, B64s}
-            IN Scan(line, i + 1, 0, FALSE, inB2, flush(i))
+            IN ScanG(line, i + 1, 0, FALSE, inB2, flush(i), strict)
 
 Tokens(line) == Scan(line, 1, 0, FALSE, FALSE, <<>>)
+TokensStrict(line) == ScanG(line, 1, 0, FALSE, FALSE, <<>>, TRUE)
 
 \* statements of a line: token lists between ";" tokens, empty ones dropped
 RECURSIVE SplitSemi(_, _, _, _)
@@ -65,6 +74,7 @@ SplitSemi(toks, i, cur, acc) ==
   ELSE IF toks[i] = <<SEMI>> THEN SplitSemi(toks, i + 1, <<>>, IF cur = <<>> THEN acc ELSE Append(acc, cur))
   ELSE SplitSemi(toks, i + 1, Append(cur, toks[i]), acc)
 Statements(line) == SplitSemi(Tokens(line), 1, <<>>, <<>>)
+StatementsStrict(line) == SplitSemi(TokensStrict(line), 1, <<>>, <<>>)
 
 \* ---- literals ---------------------------------------------------------------------------
 LOk(v) == [ok |-> TRUE, v |-> v]
